@@ -61,7 +61,7 @@ var Profiles = map[string]*Profile{
 	"C07":   {Name: "C07", MaxOps: 20, UniqueMin: 0, UniqueMax: 2, IndexPct: 20, CasePct: 15, W: map[string]int{"many": 35, "bulk": 25, "save": 15, "update": 10}},
 	"C08":   {Name: "C08", MaxOps: 8, UniqueMax: 1, IndexPct: 15, CasePct: 10},
 	"C10": {Name: "C10", MaxOps: 25, ForceAsync: true, AsyncOracles: true, UniqueMax: 1, IndexPct: 20, CasePct: 10,
-		W: map[string]int{"save": 30, "update": 30, "del": 14, "sdel": 5, "delall": 2, "flush": 10, "sleep": 8, "await": 12, "reopen": 5, "sweep": 3, "reads": 6, "create": 2, "many": 6, "bulk": 2}},
+		W: map[string]int{"save": 30, "update": 30, "del": 14, "sdel": 5, "delall": 2, "flush": 10, "sleep": 8, "await": 12, "reopen": 5, "sweep": 3, "reads": 6, "create": 14, "many": 6, "bulk": 2}},
 	"C11": {Name: "C11", MaxOps: 10, UniqueMax: 1, IndexPct: 30, CasePct: 10, W: map[string]int{"save": 40, "update": 20, "del": 8, "sweep": 1, "reads": 1, "reopen": 2, "many": 6}},
 	"C12": {Name: "C12", MaxOps: 20, UniqueMax: 1, IndexPct: 35, CasePct: 15, W: map[string]int{"sweep": 12, "getabsent": 6, "reads": 8, "flush": 3, "sleep": 3, "await": 2}},
 	"C17": {Name: "C17", MaxOps: 20, UniqueMax: 1, IndexPct: 25, CasePct: 10, W: map[string]int{"create": 30, "save": 30, "update": 25, "del": 8, "sleep": 8, "flush": 4, "reads": 8, "sweep": 3, "reopen": 4, "await": 4}},
